@@ -1,6 +1,8 @@
 """C09 - the recorder returns to idle; every run is independent of history."""
 from lib import recdsl as rd
 from props.rec_common import *  # noqa: F401,F403
+from props import race_common as rc
+from props.c04 import static_gate  # noqa: F401  (atomic-region reduction of the racing-threads model)
 
 ID = "C09"
 RUN_MODULE = "RunC09"
@@ -8,8 +10,11 @@ RULE = ("one case = a history of 2-6 runs on one real recorder (successful, rais
         "save failing, replay of a missing id, replay with missing keys / key-creation errors, replay whose playback function "
         "raises) ending in a probe run that is also executed on a FRESH recorder over the same cassette and draw position; "
         "non-trivial = history of >= 2 runs; distinct = distinct history")
-ASSUMPTIONS = ["the thread-local interception flag is observed on the driver thread only"]
-THEOREMS = ["C09_returns_to_idle", "C09_idle_throughout_history", "C09_flag_restored", "C09_history_independent", "C09_as_fresh"]
+ASSUMPTIONS = ["the thread-local interception flag is observed on the driver thread only",
+               "threads: as for C04/C05 - the methods that touch the active recording are modelled access by access "
+               "(Recorder/Threads.v), a locked region being one step; the history theorems are about one thread"]
+THEOREMS = ["C09_returns_to_idle", "C09_idle_throughout_history", "C09_flag_restored", "C09_history_independent", "C09_as_fresh",
+            "C09_idle_after_any_interleaving"]
 
 W = dict(rd.DEFAULT_W, fault=0.25, discard=0.6, force=0.9, interrupt=0.15, raise_=0.25, enable=0.1, missing_opts=0.3)
 
@@ -30,8 +35,42 @@ def rand_run(rng, runs):
                 op=rd.rand_opdef(rng, W, budget=rng.choice([4, 8, 14])), save_fails=rng.random() < 0.08)
 
 
+def to_gallina(case, obs):     # noqa: F811
+    if rc.is_race(case):
+        return rc.to_gallina(case, obs)
+    from props import rec_common
+    t = rec_common.to_gallina(case, obs)
+    return None if t is None else "H (%s)" % t
+
+
+def explain(case, obs):        # noqa: F811
+    if rc.is_race(case):
+        return rc.explain(case, obs)
+    from props import rec_common
+    return "explain_case (%s)" % rec_common.to_gallina(case, obs)
+
+
+_hist_features, _hist_nontrivial = features, nontrivial     # (from rec_common)
+
+
+def features(case):      # noqa: F811
+    return rc.features(case) if rc.is_race(case) else _hist_features(case)
+
+
+def nontrivial(case):    # noqa: F811
+    return True if rc.is_race(case) else _hist_nontrivial(case)
+
+
+def shrink_candidates(case):     # noqa: F811
+    if rc.is_race(case):
+        return
+    from props import rec_common
+    for c in rec_common.shrink_candidates(case):
+        yield c
+
+
 def generate(rng, tier):
-    cases = []
+    cases = rc.race_cases(rng, tier)
     n = 220 if tier == "quick" else 3000
     for i in range(n):
         runs = []
@@ -51,6 +90,8 @@ def strip_ords(ob):
 def direct(case, obs):
     if "driver_exception" in obs:
         return [("driver", obs["driver_exception"] + obs.get("trace", "")[-400:])]
+    if rc.is_race(case):
+        return rc.direct_idle(case, obs)
     if f07c_affected(obs):
         return []          # region of known finding F07c (reported by C01): nothing is concluded from such a case
     fails = []
